@@ -107,10 +107,23 @@ func GenerateReject(t *rapid.T, px string) (bad, control gobatch.Program, kind s
 	kinds := []string{}
 	seen := map[string]bool{}
 	for _, s := range sites {
+		switch s.kind {
+		case "method-expr-T.pointerMethod":
+			if !seen[s.kind] && excl("F-C09-2") {
+				seen[s.kind] = true
+			}
+		case "pointer-method-on-unaddressable-value", "pointer-method-value-of-unaddressable-value":
+			if !seen[s.kind] && excl("F-C09-8") {
+				seen[s.kind] = true
+			}
+		}
 		if !seen[s.kind] {
 			seen[s.kind] = true
 			kinds = append(kinds, s.kind)
 		}
+	}
+	if len(kinds) == 0 {
+		return bad, control, "", false
 	}
 	kind = kinds[g.Pick(len(kinds), "bad-kind")]
 	var of []badSite
